@@ -92,6 +92,10 @@ pub struct Scn {
     pub duration_ms: u64,
     pub conns: Vec<Conn>,
     pub faults: Vec<PF>,
+    /// expiry probe: (max_peer_age, torrent_cleaning_interval) in seconds; two scripted connections work torrent 7 and
+    /// its scrape counts are judged against deadline windows (the reference-tracker check of the other torrents is off)
+    #[serde(default)]
+    pub probe: Option<(u32, u64)>,
     /// privileges.drop_privileges: the socket workers rendezvous at a barrier after binding (the chroot itself is not simulated)
     #[serde(default)]
     pub drop_priv: bool,
@@ -225,6 +229,7 @@ struct Obs {
     inv: u64,
     ret: u64,
     t_sent_ns: u64,
+    t_done_ns: u64,
     req: Req,
     /// Ok(reply) | Err(what went wrong with framing / liveness)
     res: Result<Reply, (String, String)>,
@@ -484,7 +489,7 @@ fn client_main(idx: usize, scn: Arc<Scn>, col: Arc<Mutex<Collected>>) {
             buf.clear();
             if let Some(req) = req {
                 // the request may or may not have been handled: excused, and its torrent becomes unpredictable
-                col.lock().unwrap().obs.push(Obs { conn: idx, inv, ret: u64::MAX, t_sent_ns: t_sent, req, res: Err(("client-reset".into(), "client reset mid-request".into())), excused: true });
+                col.lock().unwrap().obs.push(Obs { conn: idx, inv, ret: u64::MAX, t_sent_ns: t_sent, t_done_ns: engine::now(), req, res: Err(("client-reset".into(), "client reset mid-request".into())), excused: true });
             }
             continue;
         }
@@ -511,7 +516,7 @@ fn client_main(idx: usize, scn: Arc<Scn>, col: Arc<Mutex<Collected>>) {
             continue;
         }
         if let Some(req) = req {
-            col.lock().unwrap().obs.push(Obs { conn: idx, inv, ret, t_sent_ns: t_sent, req, res, excused: excused_conn && failed });
+            col.lock().unwrap().obs.push(Obs { conn: idx, inv, ret, t_sent_ns: t_sent, t_done_ns: engine::now(), req, res, excused: excused_conn && failed });
         }
         last_reply_ns = Some(engine::now());
         if failed || !scn.keep_alive {
@@ -857,6 +862,37 @@ impl Harness for HttpSys {
             let i = conns.len();
             conns.push(Conn { v6: layout % 4 == 2, ac: 0, h: 10 + i as u16, sport: 2000 + i as u16, pick: 0, write_caps: vec![], slow_read: 0, script });
         }
+        // expiry probe: peers on a torrent of their own, one re-announcing every second, one announcing once, both scraping
+        let probe: Option<(u32, u64)> = if !c18 && !c19 && !c12 && access_mode == 0 && r.chance(if prop == "C07" || prop == "C10" { 300 } else { 60 }) {
+            Some(*r.pick(&[(4u32, 1u64), (4, 2), (6, 2), (4, 6), (6, 6)]))
+        } else {
+            None
+        };
+        if let Some((age, interval)) = probe {
+            let v6 = match layout % 4 {
+                1 => false,
+                2 => true,
+                _ => r.chance(500),
+            };
+            let span = 2 * age as u64 + interval + 5;
+            let mut s1 = Vec::new();
+            for k in 0..span {
+                if k < age as u64 + 3 {
+                    s1.push(HOp::Ann { t: 7, ev: 0, left: 1, want: Some(5), port: 7001, pid: 4, style: 0, seg: vec![], hdr: 0, via: 0 });
+                }
+                s1.push(HOp::Scr { ts: vec![7], seg: vec![], hdr: 0 });
+                s1.push(HOp::Sleep { ms: 1000 });
+            }
+            let mut s2 = vec![HOp::Ann { t: 7, ev: 0, left: 0, want: Some(5), port: 7002, pid: 5, style: 0, seg: vec![], hdr: 0, via: 0 }];
+            for _ in 0..span {
+                s2.push(HOp::Sleep { ms: 1000 });
+                s2.push(HOp::Scr { ts: vec![7], seg: vec![], hdr: 0 });
+            }
+            for (j, script) in [s1, s2].into_iter().enumerate() {
+                let i = conns.len();
+                conns.push(Conn { v6, ac: 0, h: 100 + j as u16, sport: 2000 + i as u16, pick: 0, write_caps: vec![], slow_read: 0, script });
+            }
+        }
         let reloads = if access_mode != 0 { (0..r.below(3)).map(|_| (r.range(500, 20000) as u32, (0..r.below(4)).map(|_| r.below(6) as u8).collect(), r.chance(250))).collect() } else { vec![] };
         Scn {
             socket_workers,
@@ -865,8 +901,8 @@ impl Harness for HttpSys {
             keep_alive,
             max_peers,
             max_scrape_torrents,
-            max_peer_age: 1800,
-            cleaning_interval: *r.pick(&[5u64, 30]),
+            max_peer_age: probe.map_or(1800, |p| p.0),
+            cleaning_interval: probe.map_or(*r.pick(&[5u64, 30]), |p| p.1),
             conn_cleaning_interval: if steady { 2 } else { *r.pick(&[2u64, 10, 60]) },
             max_connection_idle: if steady { 5 } else if r.chance(250) { *r.pick(&[2u32, 5]) } else { 180 },
             behind_proxy,
@@ -878,9 +914,10 @@ impl Harness for HttpSys {
             sched_seed: r.next_u64(),
             entropy_seed: r.next_u64(),
             yield_permille: *r.pick(&[0u32, 200, 700]),
-            duration_ms: if c19 { 40_000 } else if steady { 30_000 } else { r.range(8_000, 30_000) },
+            duration_ms: if c19 { 40_000 } else if steady { 30_000 } else if let Some((a, i)) = probe { (2 * a as u64 + i + 9) * 1000 } else { r.range(8_000, 30_000) },
             conns,
             faults,
+            probe,
             drop_priv: r.chance(300),
         }
     }
@@ -1141,7 +1178,56 @@ impl Harness for HttpSys {
                     },
                 }
             }
-            if violations.is_empty() {
+            // ---- expiry probe (C07, C10): scrape counts of torrent 7 against deadline windows
+            if let (true, Some((age, interval))) = (violations.is_empty(), scn.probe) {
+                let (age_ns, int_ns) = (age as u64 * 1_000_000_000, interval * 1_000_000_000);
+                // per probe peer: (sent, done) of every accepted announce
+                let mut anns: BTreeMap<Key, Vec<(u64, u64, u64, u64)>> = BTreeMap::new();
+                for o in col.obs.iter().filter(|o| !o.excused) {
+                    if let (Req::Ann { t: 7, key, stopped: false, .. }, Ok(Reply::Announce { .. })) = (&o.req, &o.res) {
+                        anns.entry(*key).or_default().push((o.t_sent_ns, o.t_done_ns, o.inv, o.ret));
+                    }
+                }
+                for o in col.obs.iter().filter(|o| !o.excused) {
+                    if let (Req::Scr { ts, .. }, Ok(Reply::Scrape { files })) = (&o.req, &o.res) {
+                        if ts.as_slice() != [7] {
+                            continue;
+                        }
+                        let got = files.get(&info_hash(7)).map_or(0, |x| x.0.max(0) + x.1.max(0));
+                        let (mut lower, mut upper) = (0i64, 0i64);
+                        for v in anns.values() {
+                            // the deadline is the handling worker's time sample (whole seconds, refreshed once a second) plus the
+                            // maximum age: 2 s of slack on the early side; gone by the first pass at or after it: one interval + 1.5 s
+                            // (order within one simulated instant: by the global event sequence numbers of invoke / return)
+                            let alive = v.iter().filter(|a| a.3 < o.inv).last().map_or(false, |a| o.t_done_ns + 2_000_000_000 < a.0 + age_ns);
+                            let seen = v.iter().any(|a| a.2 < o.ret);
+                            let gone = v.iter().filter(|a| a.2 < o.ret).all(|a| o.t_sent_ns > a.1 + age_ns + int_ns + 1_500_000_000);
+                            if alive {
+                                lower += 1;
+                            }
+                            if seen && !gone {
+                                upper += 1;
+                            }
+                        }
+                        stats.evaluations += 1;
+                        if got < lower {
+                            stats.probe("expiry-probe-judged");
+                            for p in ["C07", "C10"] {
+                                violations.push(Violation::new(p, "peer-kept-until-deadline", "peer-gone-before-deadline", format!("scrape of the probe torrent sent at {} ms counts {} peers, but {} announced less than max_peer_age - 2 s = {} s before it (max_peer_age {} s, cleaning every {} s, {} socket x {} swarm workers)", o.t_sent_ns / 1_000_000, got, lower, age - 2, age, interval, scn.socket_workers, scn.swarm_workers)));
+                            }
+                            break;
+                        } else if got > upper {
+                            for p in ["C07", "C10"] {
+                                violations.push(Violation::new(p, "peer-gone-after-deadline", "peer-survives-deadline-and-pass", format!("scrape of the probe torrent sent at {} ms counts {} peers, but only {} announced within the last max_peer_age + cleaning interval + 1.5 s (max_peer_age {} s, cleaning every {} s, layout {}, {} socket x {} swarm workers)", o.t_sent_ns / 1_000_000, got, upper, age, interval, scn.layout % 4, scn.socket_workers, scn.swarm_workers)));
+                            }
+                            break;
+                        } else {
+                            stats.probe(if upper == 0 { "expiry-probe-all-gone-confirmed" } else if lower > 0 { "expiry-probe-alive-confirmed" } else { "expiry-probe-inside-window" });
+                        }
+                    }
+                }
+            }
+            if violations.is_empty() && scn.probe.is_none() {
                 for (k, ops) in &per_torrent {
                     if tainted.contains(k) {
                         stats.probe("torrent-history-unpredictable-skipped");
